@@ -57,6 +57,14 @@ def main():
         rc1, o1 = sh('cd %s && timeout 900 /venv/bin/python %s/demo.py' % (repo, d), env=env)
         out['demo_patched_rc'] = rc1
         out['demo_patched_tail'] = o1[-600:]
+        first = os.path.join(d, 'eval_first.json')
+        if a.skip_tests and os.path.exists(first):
+            # re-evaluation after a check was strengthened: the test-suite result of the first evaluation stands
+            f0 = json.load(open(first))
+            for k in ('tests', 'tests_tail', 'tests_pass'):
+                if k in f0:
+                    out[k] = f0[k]
+            out['first_evaluation'] = {k: f0.get(k) for k in ('at', 'detected', 'with_failing_input', 'check_tail')}
         if not a.skip_tests:
             tests = 'tests' if a.full_tests else (a.tests or meta.get('tests_files', '') or 'tests/test_package_structure.py')
             rct, ot = sh('cd %s && timeout 5400 /venv/bin/python -m pytest -q -p no:cacheprovider --timeout=900 -x %s 2>&1 | tail -5' % (repo, tests), env=env)
